@@ -120,6 +120,8 @@ def gen_x0(rng, dom, shape, cplx):
             v = rng.choice([dyadic(rng, -2, -0.625), dyadic(rng, -0.375, 0.625), dyadic(rng, 0.875, 2)])
         else:
             raise ValueError(dom)
+        if dom in ('any', 'small', 'tan', 'unit') and rng.random() < 0.08:
+            return 0.0              # the base point exactly 0 (x**k with k >= 0, erf, sin, … are smooth there)
         if cplx:
             if dom in ('pos',):
                 return complex(v, dyadic(rng, -0.5, 0.5))
@@ -299,6 +301,26 @@ def run(ctx):
         elif res is not None:
             # functional property: the proved model *is* the property's answer on this input
             ctx.report(case, 'failure', res)
+    # base points exactly 0 where f is smooth there (every natural exponent of x**k; sin, erf, … )
+    zero_ok = [n for n in sorted(TABLE) if TABLE[n]['dom'] in ('any', 'small', 'tan', 'unit')]
+    for name in zero_ok:
+        prms = [{'r': r} for r in range(6)] if name == 'pow_nat' else [None]
+        for prm in prms:
+            case = gen_case(ctx.rng, ctx.tier, name, False)
+            while case['D'] < 2:
+                case = gen_case(ctx.rng, ctx.tier, name, False)
+            if prm:
+                case.update(prm)
+            x = np.array(case['x'])
+            x[0].reshape(x.shape[1], -1)[0, 0] = 0.0
+            if x.shape[0] >= 2:
+                x[1].reshape(x.shape[1], -1)[0, 0] = 1.0       # a non-zero first-order coefficient at that entry
+            case['x'] = x
+            ctx.evaluations += 1
+            ctx.count('zero-base-point')
+            res = run_case(ctx, case) or oracle_fails(case)
+            if res:
+                ctx.report(case, 'failure', res)
     # numpy.<f>(UTPM) entry point (ufunc method dispatch): element-wise object array
     for name in ['exp', 'sin', 'cos', 'sqrt', 'log', 'tanh', 'arctan']:
         case = gen_case(ctx.rng, ctx.tier, name)
